@@ -17,13 +17,14 @@ from lib import driver
 from lib.rec import Rec
 
 LEVEL = "fault_enumeration"
-RULE = ("Scenarios: first write, overwrite, overwrite with larger / smaller payload, create(sid, data), folder entity, the .ma/.mb pair sharing a "
-        "sidecar (payloads of 1..5 keys). For each: every effect boundary and byte prefix (quick: every 4th byte) of the python-visible effect "
-        "list, plus (injector B) a SIGKILL on entry to every mutating syscall the kernel sees in the window. Recovery oracle: data of the "
-        "written Sid is exactly the complete old or the complete new data (both taken from reference runs of the real code), all other Sids "
-        "unchanged, searches over the folder do not raise and find the same entities, the next set succeeds and reads back. Corruption family: "
-        "truncation at every byte, emptied, replaced by a directory, unreadable (injected PermissionError / EIO). Non-trivial = distinct "
-        "(scenario, cut point) that leaves the file system different from both the pre-state and the completed state, or any corruption case.")
+RULE = ('Scenarios: first write, overwrite, overwrite with larger / smaller payload, create(sid, data), folder entity, the .ma/.mb pair sharing '
+        'a sidecar (payloads of 1..5 keys). For each: every effect boundary and byte prefix (quick: every 4th byte) of the python-visible effect '
+        'list, plus (injector B) a SIGKILL on entry to every mutating syscall the kernel sees in the window. Recovery oracle: data of the '
+        'written Sid is exactly the complete old or the complete new data (both taken from reference runs of the real code), all other Sids '
+        'unchanged, searches over the folder do not raise and find the same entities, the next set succeeds and reads back. One scenario writes '
+        'to an entity of a free-text folder level (a left-over file there would be an entity). Corruption family: truncation at every byte, '
+        'emptied, replaced by a directory, unreadable (injected PermissionError / EIO). Non-trivial = distinct (scenario, cut point) that leaves '
+        'the file system different from both the pre-state and the completed state, or any corruption case.')
 ASSUME = ["a crash is modelled as process death (os._exit / SIGKILL): data handed to the kernel survives; power-loss reordering below the file "
           "system is not modelled", "sidecars that are valid JSON but not an object are outside 'not valid JSON' and not generated",
           "old / new reference states come from uncut runs of the real code in the same pre-state"]
